@@ -10,7 +10,7 @@ import z3
 
 from pyvc import specz3
 from pyvc.sym import (I, B, A, A2, iv, add, sub, lit, fresh, fresh_seq, Seq, Tup, Mat, Row, Obj, FloatV, NONE, NoneV, const_str,
-                      const_list, seq_eq, const_mat)
+                      const_list, seq_eq, const_mat, MaskV)
 
 Z3_TIMEOUT_MS = int(os.environ.get("PYVC_Z3_TIMEOUT_MS", "20000"))
 CVC5_TIMEOUT_S = int(os.environ.get("PYVC_CVC5_TIMEOUT_S", "40"))
@@ -26,12 +26,14 @@ class State:
         self.pc = []
         self.env = {}
         self.aliased = set()
+        self.stash = {}
 
     def clone(self):
         t = State()
         t.pc = list(self.pc)
         t.env = dict(self.env)
         t.aliased = set(self.aliased)
+        t.stash = dict(self.stash)
         return t
 
     def assume(self, c):
@@ -161,7 +163,10 @@ class Exec:
                 pass
             self.results.append(Result(full, "refuted", "z3", dt, line, detail))
             return
-        # z3 unknown: cvc5 on the same text
+        # z3 unknown: cvc5 on the same assertions (printed from a solver that has not run: check() rewrites them in place)
+        reason = s.reason_unknown()
+        s = make_solver(1000)
+        s.add(*asserts)
         if os.environ.get("PYVC_DUMP"):
             open(os.path.join(os.environ["PYVC_DUMP"], full.replace("/", "_").replace(":", "_") + ".smt2"), "w").write(s.to_smt2())
         t = time.time()
@@ -171,17 +176,16 @@ class Exec:
             self.results.append(Result(full, "discharged", "cvc5", dt + dt2, line))
         else:
             self.results.append(Result(full, "failed", "z3+cvc5", dt + dt2, line,
-                                       f"z3: unknown ({s.reason_unknown()}); cvc5: {r2} {out[:200]}"))
+                                       f"z3: unknown ({reason}); cvc5: {r2} {out[:200]}"))
 
     # ------------------------------------------------------------------ exceptions inside expressions
     def may_raise(self, st, exc, cond, label, line=None):
         """operation raises `exc` when cond holds: fork if the contract allows exc, otherwise exception-freedom obligation."""
         if isinstance(cond, bool):
             cond = z3.BoolVal(cond)
-        cond = z3.simplify(cond)
-        if z3.is_false(cond):
-            return
-        if exc in self.c.get("raises", {}) and not self.quiet:
+        if z3.is_false(z3.simplify(cond)):      # (the simplified form is only used for this test: z3's simplifier may introduce
+            return                              #  pseudo-boolean operators that other solvers do not read)
+        if (exc in self.c.get("raises", {}) or exc in self.c.get("raises_only_when", {})) and not self.quiet:
             t = st.clone()
             t.assume(cond)
             self.pending.append(Outcome("raise", t, exc=exc, line=line))
@@ -318,6 +322,11 @@ class Exec:
             raise Unsupported("sequence ordering")
         if isinstance(l, FloatV) or isinstance(r, FloatV):
             return self.float_compare(op, l, r)
+        if isinstance(l, Seq) and l.kind == "nd" and not isinstance(r, Seq):
+            c = toint(r)
+            f = {ast.Eq: lambda v: v == c, ast.NotEq: lambda v: v != c, ast.Lt: lambda v: v < c, ast.LtE: lambda v: v <= c,
+                 ast.Gt: lambda v: v > c, ast.GtE: lambda v: v >= c}[type(op)]
+            return MaskV(l, f)            # element-wise comparison of a numpy array with a scalar
         if isinstance(l, Seq) or isinstance(r, Seq):
             if isinstance(op, ast.Eq):
                 return z3.BoolVal(False)
@@ -332,6 +341,18 @@ class Exec:
     fmul = z3.Function("fmul", I, I, z3.RealSort())      # fmul(float id, n) = the float product, as an opaque real
 
     def float_compare(self, op, l, r):
+        for x, y, flip in ((l, r, False), (r, l, True)):
+            if isinstance(x, FloatV) and isinstance(x.term, tuple) and x.term[0] == "ratio":
+                c = lit(toint(y)) if not isinstance(y, FloatV) else None
+                if c != 0:
+                    raise Unsupported("comparison of a quotient with a value other than 0")
+                a, b = x.term[1], x.term[2]
+                sgn = z3.If(b > 0, a, -a)          # sign of a/b for b != 0
+                o = type(op)
+                if flip:
+                    o = {ast.Lt: ast.Gt, ast.Gt: ast.Lt, ast.LtE: ast.GtE, ast.GtE: ast.LtE}.get(o, o)
+                return {ast.Eq: sgn == 0, ast.NotEq: sgn != 0, ast.Lt: sgn < 0, ast.LtE: sgn <= 0, ast.Gt: sgn > 0, ast.GtE: sgn >= 0}[o]
+
         def real(v):
             if isinstance(v, FloatV):
                 return v.term
@@ -394,6 +415,10 @@ class Exec:
             self.prove(st, f"divisor-positive:{self.ordinal('div')}", b > 0, line)
             st.assume(b > 0)
             return a / b if isinstance(op, ast.FloorDiv) else a % b
+        if isinstance(op, ast.Div):
+            # true division yields a float: only its comparisons with 0 are modelled (ratio sign), DESIGN section 2
+            self.may_raise(st, "ZeroDivisionError", b == 0, f"division:{self.ordinal('div')}", line)
+            return FloatV(("ratio", a, b))
         if isinstance(op, ast.Pow):
             lb, le = lit(a), lit(b)
             if lb is not None and le is not None and le >= 0:
@@ -536,7 +561,23 @@ class Exec:
             hi = base.n if sl.upper is None else self.clip(base.n, toint(self.ev(sl.upper, st)))
             n = z3.simplify(z3.If(hi - lo > 0, hi - lo, 0))
             return base.view(lo, n)
-        idx = toint(self.ev(sl, st))
+        idxv = self.ev(sl, st)
+        if isinstance(idxv, Seq) and base.kind == "nd":            # fancy indexing a[list of ints]: a copy
+            k = lit(idxv.n)
+            if k is None or k > 8:
+                raise Unsupported("fancy indexing with a symbolic-length index list")
+            vals = []
+            for q in range(k):
+                jq = idxv.at(q)
+                self.may_raise(st, "IndexError", z3.Or(jq < 0, jq >= base.n), f"index:{self.ordinal('idx')}", line)
+                vals.append(base.at(jq))
+            out = const_list(vals)
+            out.kind, out.dtype, out.elem = "nd", base.dtype, base.elem
+            return out
+        if isinstance(idxv, MaskV) and base.kind == "nd":
+            from pyvc import library
+            return library.mask_select(self, st, base, idxv, line)
+        idx = toint(idxv)
         j = self.norm_index(base.n, idx, st)
         self.may_raise(st, "IndexError", z3.Or(j < 0, j >= base.n), f"index:{self.ordinal('idx')}", line)
         if base.kind == "str":
@@ -676,6 +717,7 @@ class Exec:
 
     def assign(self, tgt, v, st, s):
         if isinstance(tgt, ast.Name):
+            st.aliased.discard(tgt.id)          # rebinding a name ends its membership in an alias pair
             if isinstance(v, Seq) and v.kind in ("list", "nd") and isinstance(getattr(s, "value", None), ast.Name) \
                     and tgt.id not in self.ghost_names:      # a ghost binding is a value snapshot, not an alias
                 st.aliased.add(tgt.id)
@@ -1128,16 +1170,24 @@ class Exec:
             else:
                 st.env[nme] = shapes.fresh_of(self, st, shape, nme)
             self.param_objects[nme] = st.env[nme]
+        for nme, shape in self.c.get("ghost_params", {}).items():       # universally quantified spec-only inputs
+            st.env[nme] = shapes.fresh_of(self, st, shape, nme)
+            self.ghost_names.add(nme)
         self.old = dict(st.env)
         st.env["__old__"] = self.old
         for label, txt in self.c.get("requires", {}).items():
             self.quiet += 1
             st.assume(tobool(self.spec_eval(txt, st)))
             self.quiet -= 1
+        for label, txt in self.c.get("stashed_requires", {}).items():      # preconditions kept out of the queries until unstash(label)
+            self.quiet += 1
+            st.stash[label] = tobool(self.spec_eval(txt, st))
+            self.quiet -= 1
         if not self.feasible(st):
             self.results.append(Result(f"{self.qualname}{self.tag}:requires-satisfiable", "failed", "z3", 0.0, None, "precondition is contradictory"))
             return self.results
         self.entry = st.clone()
+        self.entry_pc = list(st.pc)
         outs = []
         for g in self.ghost("entry", st):
             outs += self.exec_block(self.fn.body, g)
@@ -1172,7 +1222,8 @@ class Exec:
 
     def check_raise(self, o, k):
         st = o.st
-        raises = self.c.get("raises", {})
+        raises = dict(self.c.get("raises", {}))
+        raises.update(self.c.get("raises_only_when", {}))
         if o.exc not in raises:
             self.prove(st, f"raise{k}@{o.line}:{o.exc}:unreachable", z3.BoolVal(False), o.line)
             return
